@@ -183,7 +183,11 @@ func (g *c20Gen) scalarField(name string, added bool, ver string) c20Field {
 		tags = append(tags, "index:idx_"+strings.ToLower(name)+"_named,sort:desc")
 		g.f(ver + ":index-named")
 	case 3:
-		tags = append(tags, fmt.Sprintf("index:idx_comp,priority:%d", 1+g.rng.Intn(4)))
+		comp := "idx_comp"
+		if added { // joining an index name v1 already has would CHANGE that index (left alone by design), not add one
+			comp = "idx_comp_new"
+		}
+		tags = append(tags, fmt.Sprintf("index:%s,priority:%d", comp, 1+g.rng.Intn(4)))
 		g.f(ver + ":index-composite")
 	}
 	if g.rng.Intn(7) == 0 {
@@ -273,7 +277,7 @@ func c20AddTag(tag, add string) string {
 // genSpec generates one history. tricky=true lets the generator use the spellings covered by listed findings.
 func c20GenSpec(rng *rand.Rand, tricky bool) c20Spec {
 	g := &c20Gen{rng: rng, feat: map[string]bool{}, tricky: tricky}
-	sp := c20Spec{Table: "gen_items", Rows: 1 + rng.Intn(4)}
+	sp := c20Spec{Table: "gen_items", Rows: 2 + rng.Intn(3)}
 	idPK := false
 	switch rng.Intn(8) {
 	case 0, 1, 2:
